@@ -10,7 +10,7 @@ import (
 
 func init() {
 	register(&Property{
-		ID: "C18",
+		ID:          "C18",
 		Explanation: "Agreement of the key tables, decided per format key: (role-tables) for every non-None encryption/signature format the generator, the identity parser and the recipient parser each have an arm (directly or by delegating to the sibling function with the same format value), and the concrete type each Parse* arm produces is identical (types.Identical) to the type the matching Encrypt/Decrypt/Sign/Verify(String) arm asserts on its interface{} parameter - a mismatch compiles and fails only at run time; (password-flow) in each non-None arm of the generators and identity parsers the password parameter reaches an argument of a key-wrapping/unwrapping call of the crypto module (or the delegate), and where the generator wraps only under a condition on the password the parser unwraps under the same condition.",
 		NotDecided:  "That wrong passwords or keys of another pair are rejected, and that generated keys are well-formed (crypto libraries).",
 		Assumptions: []string{"age, gopenpgp/go-crypto and minisign implement their documented key formats"},
